@@ -13,6 +13,7 @@ Python float literals are read as the decimal number they denote (A-REAL): Float
 converted through their shortest repr; an inexact intermediate float makes an identity undecided, never discharged."""
 import random
 import sys
+import time
 
 import numpy as np
 import sympy as sp
@@ -153,6 +154,8 @@ def load(target, env=None, extra=None):
     """the instrumented real function as a python callable over CAS values"""
     loc, code, stats = cas.compile_function(target)
     g = cas.cas_globals(dict({'math': ExactMath}, **(env or {})), extra if extra is not None else np_extra())
+    import builtins as _bi
+    g['__builtins__']['__import__'] = _bi.__import__      # numpy's C code imports helper modules lazily through the calling frame's builtins
     exec(code, g)
     return g[loc.node.name]
 
@@ -266,6 +269,54 @@ def packed(got, want, tag):
     return sum(c * a for c, a in zip(cs, g)), sum(c * b for c, b in zip(cs, w)), {c: (0.5, 1.5) for c in cs}
 
 
+def merge(*ds):
+    out = {}
+    for d_ in ds:
+        out.update(d_)
+    return out
+
+
+def _num(e, pt, funcs):
+    e = sp.sympify(e).subs(pt)
+    for f_, impl in (funcs or {}).items():
+        e = e.replace(f_, impl)
+    return complex(sp.N(e, 30))
+
+
+def decide(lhs, rhs, dom, seed=0, budget_s=15.0, funcs=None):
+    """cas.decide_identity with a numeric pre-screen: a residual that is clearly non-zero at a sampled point of the
+    domain is refuted at once (that point is the counterexample); otherwise the symbolic strategies run"""
+    try:
+        res = sp.sympify(lhs) - sp.sympify(rhs)
+        syms = sorted(res.free_symbols, key=lambda s_: s_.name)
+        if res != 0 and all(s_ in dom for s_ in syms):
+            rnd = random.Random(seed + 11)
+            for _ in range(3):
+                pt = {s_: rnd.uniform(*dom[s_]) for s_ in syms}
+                v = abs(_num(res, pt, funcs))
+                try:
+                    scale = max(1.0, abs(_num(lhs, pt, funcs)))
+                except Exception:
+                    scale = 1.0
+                if v == v and v != float('inf') and v > 1e-6 * scale:
+                    return dict(verdict='refuted', point={str(s_): pt[s_] for s_ in syms}, residual_value=v, residual=str(res)[:300], seconds=0.0)
+    except Exception:
+        pass
+    try:
+        # sound under the declared symbol assumptions (no force): split logs of factored rational arguments
+        t0 = time.time()
+        r = cas._with_timeout(min(10.0, budget_s / 2), lambda e: sp.expand(_factor_logs(e)), sp.sympify(lhs) - sp.sympify(rhs))
+        if r is not None and r == 0:
+            return dict(verdict='discharged', how='factor-logs', seconds=round(time.time() - t0, 3))
+    except Exception:
+        pass
+    return decide_identity(lhs, rhs, dom, seed=seed, budget_s=budget_s, funcs=funcs)
+
+
+def _factor_logs(e):
+    return e.replace(lambda t: isinstance(t, sp.log), lambda t: sp.expand_log(sp.log(sp.factor(sp.together(t.args[0])))))
+
+
 def predecided(name, verdict, why, case=None, point=None):
     return dict(name=name, verdict=verdict, reason=why, note=why[:160], case=case, point=point, residual=why[:300], seconds=0.0)
 
@@ -294,14 +345,17 @@ def native_input(case, point, seed=0):
         return dict(kind=kind, types=case['types'], bound=b, theta=x, y=y)
     if kind == 'mh_ratio':
         Ln, Lc = float(point.get('Lnew', -1.0)), float(point.get('Lcur', -2.0))
+        if case.get('rho') is not None:
+            Ln = Lc + float(case['rho'])
         if case.get('types') is None:
             return dict(kind='mh_ratio', bound=None, theta_new=[float(point.get('tn%d' % i, 0.3)) for i in range(2)],
                         theta_cur=[float(point.get('tc%d' % i, -0.2)) for i in range(2)], post_new=Ln, post_cur=Lc)
-        b, x = native_bounds(case['types'], point)
+        b, x = native_bounds(case['types'], point, two_points=True)
         tc = []
         for i, t in enumerate(case['types']):
-            a, p, q, r = (float(point.get('%s%d' % (s_, i), 0.5 + 0.1 * i)) for s_ in 'apqr')
-            tc.append(a + (p + q) * r / (1 + r) if t == 0 else (a - r if t == 1 else (a + r if t == 2 else a + r - 1)))
+            a, p, q = (float(point.get('%s%d' % (s_, i), 0.5)) for s_ in 'apq')
+            r = float(point.get('r%d' % i, 0.7))
+            tc.append(a + p + q if t == 0 else (a - r if t == 1 else (a + r if t == 2 else a + r - 1)))
         return dict(kind='mh_ratio', types=case['types'], bound=b, theta_new=x, theta_cur=tc, post_new=Ln, post_cur=Lc)
     if kind == 'likelihood':
         n, d = case['n'], case['d']
@@ -344,6 +398,11 @@ class C20Cas(CasContract):
                         ident = dict(ident, verdict='refuted', point={}, residual='%s | native: %s' % (ident.get('reason'), what), native_input=inp)
                     else:
                         ident = dict(ident, verdict='undecided', reason='%s (CAS run only; the native float run of this case holds)' % ident.get('reason'))
+                elif 'verdict' not in ident:
+                    d_ = decide(ident['lhs'], ident['rhs'], ident.get('domain', {}), seed=seed, budget_s=(20.0 if tier == 'quick' else 90.0), funcs=ident.get('funcs'))
+                    ident = dict(ident, **{k_: v_ for k_, v_ in d_.items() if k_ not in ident})
+                    if not ident.get('note'):
+                        ident['note'] = d_.get('how', '') or ''
                 yield ident
         except OutOfSubset:
             raise
@@ -356,7 +415,7 @@ TYPE_NAME = {0: 'two-sided', 1: 'upper-only', 2: 'lower-only', 3: 'unbounded'}
 TYPE_CASES = [(0,), (1,), (2,), (3,), (1, 0), (0, 1, 2), (3, 2, 0, 1)]
 
 
-def bound_symbols(types):
+def bound_symbols(types, two_points=False):
     """per parameter: (lo, hi, a point strictly inside) with the precondition lo < x < hi entered by re-parameterisation"""
     lo, hi, x, dom = [], [], [], {}
     for i, t in enumerate(types):
@@ -364,8 +423,11 @@ def bound_symbols(types):
         p = sp.Symbol('p%d' % i, positive=True, finite=True)
         q = sp.Symbol('q%d' % i, positive=True, finite=True)
         dom.update({a: (-2, 2), p: (0.2, 2), q: (0.2, 2)})
+        if two_points:
+            r = sp.Symbol('r%d' % i, positive=True, finite=True)
+            dom[r] = (0.2, 2)
         if t == 0:
-            lo.append(a); hi.append(a + p + q); x.append(a + p)
+            lo.append(a); hi.append(a + p + q + (r if two_points else 0)); x.append(a + p)
         elif t == 1:
             lo.append(-sp.oo); hi.append(a); x.append(a - q)
         elif t == 2:
@@ -376,13 +438,14 @@ def bound_symbols(types):
     return bound, x, dom
 
 
-def native_bounds(types, point):
+def native_bounds(types, point, two_points=False):
     """the same bounds / inside point in floats from a sampled point {symbol name: value}"""
     b, x = [], []
     for i, t in enumerate(types):
         a, p, q = (float(point.get('%s%d' % (s, i), 0.5)) for s in 'apq')
+        r = float(point.get('r%d' % i, 0.7)) if two_points else 0.0
         if t == 0:
-            b.append([a, a + p + q]); x.append(a + p)
+            b.append([a, a + p + q + r]); x.append(a + p)
         elif t == 1:
             b.append([-float('inf'), a]); x.append(a - q)
         elif t == 2:
@@ -399,7 +462,7 @@ def tname(types):
 class BackOfFwd(C20Cas):
     target = BSL + '_para_logit_transform'
     prop = 'C20'
-    label = 'back(fwd(x))=x'
+    label = 'back.fwd=id'
     shapes = 'p = 1 for each of the four bound types; mixed vectors (upper,two), (two,upper,lower), (unb,lower,two,upper)'
 
     def _idents(self, tier, seed):
@@ -419,7 +482,7 @@ class BackOfFwd(C20Cas):
 class FwdOfBack(C20Cas):
     target = BSL + '_para_logit_back_transform'
     prop = 'C20'
-    label = 'fwd(back(y))=y'
+    label = 'fwd.back=id'
     shapes = BackOfFwd.shapes
 
     def _idents(self, tier, seed):
@@ -427,7 +490,7 @@ class FwdOfBack(C20Cas):
         for types in TYPE_CASES:
             bound, _, dom = bound_symbols(types)
             ys = [sp.Symbol('y%d' % i, real=True, finite=True) for i in range(len(types))]
-            dom = dict(dom, **{s: (-3, 3) for s in ys})
+            dom = merge(dom, {s: (-3, 3) for s in ys})
             yb = fwd(back(np.array(ys, dtype=object), bound), bound)
             case = dict(kind='roundtrip', types=list(types))
             for i, t in enumerate(types):
@@ -445,7 +508,7 @@ def extracted_logjac(back, types, bound, ys):
 class JacobianLogit(C20Cas):
     target = BSL + '_jacobian_logit_transform'
     prop = 'C20'
-    label = 'logJ=log|d back/dy|'
+    label = 'logJ'
     shapes = BackOfFwd.shapes
 
     def _idents(self, tier, seed):
@@ -453,7 +516,7 @@ class JacobianLogit(C20Cas):
         for types in TYPE_CASES:
             bound, _, dom = bound_symbols(types)
             ys = [sp.Symbol('y%d' % i, real=True, finite=True) for i in range(len(types))]
-            dom = dict(dom, **{s: (-3, 3) for s in ys})
+            dom = merge(dom, {s: (-3, 3) for s in ys})
             want, off = extracted_logjac(back, types, bound, ys)
             got = jac(np.array(ys, dtype=object), bound)
             case = dict(kind='jacobian', types=list(types))
@@ -461,7 +524,7 @@ class JacobianLogit(C20Cas):
             if off:
                 cs = [sp.Symbol('c%d' % k, real=True) for k in range(len(off))]
                 yield dict(name='Jacobian of the back-transform is diagonal for (%s)' % tname(types), lhs=sum(c * o for c, o in zip(cs, off)), rhs=sp.Integer(0),
-                           domain=dict(dom, **{c: (0.5, 1.5) for c in cs}), case=case)
+                           domain=merge(dom, {c: (0.5, 1.5) for c in cs}), case=case)
 
 
 # ====================================================================================== _get_mh_ratio end to end
@@ -470,7 +533,7 @@ class MhRatioEndToEnd(C20Cas):
     path forking + a one-variable z3 query in rho = the stated log-ratio"""
     target = BSL + '_get_mh_ratio'
     prop = 'C20'
-    label = 'end-to-end'
+    label = 'cas'
     shapes = 'p = 1 for each bound type, (two,upper,lower), no bounds (p = 2)'
     CASES = [(0,), (1,), (2,), (3,), (0, 1, 2), None]
 
@@ -489,23 +552,12 @@ class MhRatioEndToEnd(C20Cas):
                 dom.update({s: (-2, 2) for s in tn + tc})
                 rho = Ln - Lp
             else:
-                bound, tn, dom1 = bound_symbols(types)
-                # the current point: a second point inside the same bounds
-                tc, ren = [], {}
+                bound, tn, dom1 = bound_symbols(types, two_points=True)
+                # the current point: a second point inside the same bounds (two-sided: interval (a, a+p+q+r), points a+p and a+p+q)
+                tc = []
                 for i, t in enumerate(types):
-                    r = sp.Symbol('r%d' % i, positive=True, finite=True)
-                    dom1[r] = (0.2, 2)
-                    a = sp.Symbol('a%d' % i, real=True, finite=True)
-                    if t == 0:
-                        # same interval (a, a+p+q): current = a + (p+q) r/(1+r)
-                        w = sp.Symbol('p%d' % i, positive=True, finite=True) + sp.Symbol('q%d' % i, positive=True, finite=True)
-                        tc.append(a + w * r / (1 + r))
-                    elif t == 1:
-                        tc.append(a - r)
-                    elif t == 2:
-                        tc.append(a + r)
-                    else:
-                        tc.append(a + r - 1)
+                    a, p_, q_, r = (sp.Symbol('%s%d' % (s_, i), **(dict(real=True) if s_ == 'a' else dict(positive=True)), finite=True) for s_ in 'apqr')
+                    tc.append(a + p_ + q_ if t == 0 else (a - r if t == 1 else (a + r if t == 2 else a + r - 1)))
                 dom.update(dom1)
                 ys = [sp.Symbol('y%d' % i, real=True, finite=True) for i in range(p)]
                 lj, _ = extracted_logjac(back, types, bound, ys)
@@ -521,32 +573,38 @@ class MhRatioEndToEnd(C20Cas):
             EXPF = z3.Function('EXP', z3.RealSort(), z3.RealSort())
             clip = z3.If(rz > 700, z3.RealVal(700), z3.If(rz < -700, z3.RealVal(-700), rz))
             pt0 = {s: (lo + hi) / 2.0 + 0.137 * (hi - lo) for s, (lo, hi) in dom.items()}
+            atoms = {}
             for k, (dec, outcome) in enumerate(paths):
                 if outcome[0] != 'return':
                     yield predecided('path %d of %s' % (k, nm), 'undecided', 'exception %s: %s' % (type(outcome[1]).__name__, outcome[1]), case)
                     continue
                 conds, ok = [], True
                 for j, (rel, taken) in enumerate(dec):
-                    g = rel.lhs - rel.rhs
-                    s_found = None
-                    for sgn in (1, -1):
-                        kk = sp.nsimplify(sp.N((g - sgn * rho).subs(pt0), 30), rational=True, tolerance=1e-9)
-                        d = decide_identity(g - sgn * rho, kk, dom, seed=seed, budget_s=15.0)
-                        if d['verdict'] == 'discharged':
-                            s_found = (sgn, kk)
-                            break
-                        if sgn == 1:
-                            first = d
-                    nmj = 'clip test %d on path %d compares the stated log-ratio with a constant (%s)' % (j, k, nm)
-                    if s_found is None:
+                    key = sp.srepr(rel)
+                    if key not in atoms:
+                        g = rel.lhs - rel.rhs
+                        found, first = None, None
+                        for sgn in (1, -1):
+                            kk = sp.nsimplify(sp.N((g - sgn * rho).subs(pt0), 30), rational=True, tolerance=1e-9)
+                            d = decide(g - sgn * rho, kk, dom, seed=seed, budget_s=15.0)
+                            if d['verdict'] == 'discharged':
+                                found = (sgn, kk)
+                                break
+                            first = first or d
+                        nmj = 'clip test #%d is on the stated log-ratio (%s)' % (len(atoms), nm)
+                        if found is None:
+                            atoms[key] = None
+                            if not any(v_ is None for k_, v_ in atoms.items() if k_ != key):
+                                yield dict(first, name=nmj, case=case, note='tested quantity minus stated log-ratio is not constant')
+                        else:
+                            atoms[key] = to_z3(type(rel)(found[0] * sp.Symbol('rho') + found[1], 0), {sp.Symbol('rho'): rz})
+                            yield predecided(nmj, 'discharged', 'tested quantity = %+d * rho + (%s)' % found, case)
+                    if atoms[key] is None:
                         ok = False
-                        yield dict(first, name=nmj, case=case, note='tested quantity minus stated log-ratio is not constant')
-                        continue
-                    yield predecided(nmj, 'discharged', 'tested quantity = %+d * rho + (%s)' % s_found, case)
-                    atom = to_z3(type(rel)(s_found[0] * sp.Symbol('rho') + s_found[1], 0), {sp.Symbol('rho'): rz})
-                    conds.append(atom if taken else z3.Not(atom))
+                    else:
+                        conds.append(atoms[key] if taken else z3.Not(atoms[key]))
                 E = outcome[1]
-                nme = 'result on path %d = exp(stated log-ratio) or a clip constant (%s)' % (k, nm)
+                nme = 'path %d result = exp(stated log-ratio) or clip constant (%s)' % (k, nm)
                 if not sp.sympify(E).free_symbols:
                     m = sp.log(E)
                     if not (m.is_Rational or m.is_Integer):
@@ -556,16 +614,33 @@ class MhRatioEndToEnd(C20Cas):
                     yield predecided(nme, 'discharged', 'result = exp(%s)' % m, case)
                 else:
                     m = sp.nsimplify(sp.N((sp.log(E) - rho).subs(pt0), 30), rational=True, tolerance=1e-9)
-                    d = decide_identity(sp.log(E), rho + m, dom, seed=seed, budget_s=15.0)
+                    d = decide(sp.log(E), rho + m, dom, seed=seed, budget_s=15.0)
                     yield dict(d, name=nme, case=case, note='log(result) = stated log-ratio + (%s)' % m)
                     if d['verdict'] != 'discharged':
                         continue
                     res_z = EXPF(rz + to_z3(m, {}))
                 if not ok:
                     continue
-                valid = z3_valid(z3.Implies(z3.And(conds) if conds else z3.BoolVal(True), res_z == EXPF(clip)))
-                yield predecided('path %d: result = exp(clip(rho, -700, 700)) under its path condition (%s)' % (k, nm),
-                                 'discharged' if valid else 'undecided', 'z3 over rho with exp uninterpreted', case)
+                claim = z3.Implies(z3.And(conds) if conds else z3.BoolVal(True), res_z == EXPF(clip))
+                nmp = 'path %d: result = exp(clip(rho)) under its condition (%s)' % (k, nm)
+                if z3_valid(claim):
+                    yield predecided(nmp, 'discharged', 'z3 over rho with exp uninterpreted', case)
+                else:
+                    # a value of the log-ratio on which the piecewise claim fails: a violation only if the native run fails there
+                    sol = z3.Solver()
+                    sol.set('timeout', 5000)
+                    sol.add(z3.Not(claim))
+                    rho_v = None
+                    if sol.check() == z3.sat:
+                        v = sol.model().eval(rz, model_completion=True)
+                        try:
+                            rho_v = float(v.as_fraction())
+                        except Exception:
+                            rho_v = None
+                    if rho_v is None:
+                        yield predecided(nmp, 'undecided', 'z3 does not prove the piecewise claim', case)
+                    else:
+                        yield predecided(nmp, 'refuted-if-native', 'piecewise claim fails at log-ratio %.6g' % rho_v, dict(case, rho=rho_v))
             # the paths cover every rho (no value of the log-ratio is left without a result) - by construction of the forking
 
 
@@ -573,7 +648,7 @@ class MhRatioEndToEnd(C20Cas):
 def data_symbols(n, d):
     X = real_symbols('x', (n, d))
     y = real_symbols('y', (d,))
-    return X, y, dict(box(X, -2, 2), **box(y, -2, 2))
+    return X, y, merge(box(X, -2, 2), box(y, -2, 2))
 
 
 def native_data(n, d, point, seed=0):
@@ -591,7 +666,7 @@ def explain_error(e):
 class GaussianSynLikelihood(C20Cas):
     target = PDF + 'gaussian_syn_likelihood'
     prop = 'C20'
-    label = 'MVN arguments'
+    label = 'args'
     shapes = '(n, d) = (4, 2), (5, 3), (4, 1); y given as (1, d); whitening none / W (d x d); shrinkage none / warton (glasso not contracted)'
     SHAPES = [(4, 2), (5, 3), (4, 1)]
 
@@ -610,7 +685,7 @@ class GaussianSynLikelihood(C20Cas):
         if whiten:
             dom.update(box(W, -1.5, 1.5))
         dom[pen] = (0.05, 0.95)
-        tag = 'n=%d,d=%d,%s,%s' % (n, d, 'whitening' if whiten else 'no-whitening', shrink or 'no-shrinkage')
+        tag = 'n=%d,d=%d,%s,%s' % (n, d, 'W' if whiten else 'no-W', shrink or 'no-shrink')
         case = dict(kind='likelihood', which='gsl', n=n, d=d, whiten=whiten, shrinkage=shrink)
         mvn = Mvn()
         cw_calls = []
@@ -640,12 +715,12 @@ class GaussianSynLikelihood(C20Cas):
         m_spec, S_spec = F.sample_mean(Xl), F.sample_cov(Xl)
         r = raw(res)
         yield dict(name='result is [logpdf value] [%s]' % tag, lhs=(r.reshape(-1)[0] if r.size == 1 else sp.Symbol('wrong_size')), rhs=c['sym'], domain=dom, case=case)
-        for what, got, want in (('x = (whitened) observed summaries', c['x'], yl), ('mean = sample mean of the (whitened) simulated summaries', c['mean'], m_spec)):
+        for what, got, want in (('x = (whitened) observed summaries', c['x'], yl), ('mean = sample mean of (whitened) summaries', c['mean'], m_spec)):
             pk = packed(got, want, 'v')
             if pk is None:
                 yield predecided('%s [%s]' % (what, tag), 'undecided', 'size %s where %d entries are expected' % (raw(got).shape, d), case)
                 continue
-            yield dict(name='%s [%s]' % (what, tag), lhs=pk[0], rhs=pk[1], domain=dict(dom, **pk[2]), case=case)
+            yield dict(name='%s [%s]' % (what, tag), lhs=pk[0], rhs=pk[1], domain=merge(dom, pk[2]), case=case)
         if shrink == 'warton':
             if len(cw_calls) != 1:
                 yield predecided('one cov_warton call [%s]' % tag, 'undecided', '%d calls' % len(cw_calls), case)
@@ -655,25 +730,25 @@ class GaussianSynLikelihood(C20Cas):
             if pk is None:
                 yield predecided('cov_warton gets the sample covariance [%s]' % tag, 'undecided', 'shape %s' % (raw(S_arg).shape,), case)
             else:
-                yield dict(name='cov_warton gets the sample covariance of the (whitened) summaries [%s]' % tag, lhs=pk[0], rhs=pk[1], domain=dict(dom, **pk[2]), case=case)
+                yield dict(name='cov_warton gets sample cov of (whitened) summaries [%s]' % tag, lhs=pk[0], rhs=pk[1], domain=merge(dom, pk[2]), case=case)
             yield dict(name='cov_warton gets gamma = 1 - penalty [%s]' % tag, lhs=exactify(g_arg), rhs=1 - pen, domain=dom, case=case)
             pk = packed(c['cov'], cwm.tolist(), 'C')
             if pk is None:
                 yield predecided('cov = ridge estimate [%s]' % tag, 'undecided', 'shape %s' % (raw(c['cov']).shape,), case)
             else:
-                yield dict(name='cov = the ridge estimate returned by cov_warton [%s]' % tag, lhs=pk[0], rhs=pk[1], domain=dict(dom, **pk[2], **box(cwm, 0.5, 1.5)), case=case)
+                yield dict(name='cov = the ridge estimate returned by cov_warton [%s]' % tag, lhs=pk[0], rhs=pk[1], domain=merge(dom, pk[2], box(cwm, 0.5, 1.5)), case=case)
         else:
             pk = packed(c['cov'], S_spec, 'S')
             if pk is None:
                 yield predecided('cov = sample covariance [%s]' % tag, 'undecided', 'shape %s' % (raw(c['cov']).shape,), case)
             else:
-                yield dict(name='cov = sample covariance of the (whitened) simulated summaries [%s]' % tag, lhs=pk[0], rhs=pk[1], domain=dict(dom, **pk[2]), case=case)
+                yield dict(name='cov = sample covariance of (whitened) summaries [%s]' % tag, lhs=pk[0], rhs=pk[1], domain=merge(dom, pk[2]), case=case)
 
 
 class SynLikelihoodMisspec(C20Cas):
     target = PDF + 'syn_likelihood_misspec'
     prop = 'C20'
-    label = 'adjusted moments'
+    label = 'args'
     shapes = '(n, d) = (4, 2), (5, 3), (4, 1); adjustment mean / variance'
     SHAPES = [(4, 2), (5, 3), (4, 1)]
 
@@ -707,13 +782,13 @@ class SynLikelihoodMisspec(C20Cas):
                     if pk is None:
                         yield predecided('%s [%s]' % (what, tag), 'undecided', 'shape %s' % (raw(got).shape,), case)
                         continue
-                    yield dict(name='%s [%s]' % (what, tag), lhs=pk[0], rhs=pk[1], domain=dict(dom, **pk[2]), case=case)
+                    yield dict(name='%s [%s]' % (what, tag), lhs=pk[0], rhs=pk[1], domain=merge(dom, pk[2]), case=case)
 
 
 class GhuryeOlkin(C20Cas):
     target = PDF + 'gaussian_syn_likelihood_ghurye_olkin'
     prop = 'C20'
-    label = 'Price et al. 2018'
+    label = 'formula'
     shapes = '(n, d) = (6, 2), (8, 3), (6, 1); Psi positive definite / not positive definite'
     SHAPES = [(6, 2), (8, 3), (6, 1)]
 
@@ -722,7 +797,7 @@ class GhuryeOlkin(C20Cas):
         for n, d in self.SHAPES:
             for psi_sign in (1, -1):
                 X, y, dom = data_symbols(n, d)
-                tag = 'n=%d,d=%d,Psi %s' % (n, d, 'positive definite' if psi_sign > 0 else 'NOT positive definite')
+                tag = 'n=%d,d=%d,%s' % (n, d, 'Psi>0' if psi_sign > 0 else 'Psi not>0')
                 case = dict(kind='likelihood', which='go', n=n, d=d, psi_sign=psi_sign)
                 la = Linalg(signs={0: sp.Integer(1), 1: sp.Integer(psi_sign)})
                 f = load(self.target, dict(wcon=wcon, loggamma=loggamma_model), np_extra(la))
@@ -737,12 +812,12 @@ class GhuryeOlkin(C20Cas):
                 val = exactify(r[0]) if r.size == 1 else sp.Symbol('wrong_size')
                 if psi_sign < 0:
                     if val == -sp.oo:
-                        yield predecided('estimator is 0 (log = -inf) when Psi is not positive definite [%s]' % tag, 'discharged', 'result is -inf', case)
+                        yield predecided('log = -inf when Psi not pos.def. [%s]' % tag, 'discharged', 'result is -inf', case)
                     elif not val.has(sp.oo, -sp.oo, sp.nan):
-                        yield predecided('estimator is 0 (log = -inf) when Psi is not positive definite [%s]' % tag, 'refuted-if-native',
+                        yield predecided('log = -inf when Psi not pos.def. [%s]' % tag, 'refuted-if-native',
                                          'the value does not depend on the sign of det Psi: finite where psi(.) = 0', case)
                     else:
-                        yield predecided('estimator is 0 (log = -inf) when Psi is not positive definite [%s]' % tag, 'undecided', 'result %s' % str(val)[:80], case)
+                        yield predecided('log = -inf when Psi not pos.def. [%s]' % tag, 'undecided', 'result %s' % str(val)[:80], case)
                     continue
                 if val.has(sp.oo, -sp.oo, sp.nan):
                     yield predecided('value = published formula [%s]' % tag, 'refuted-if-native', 'result %s where the formula is finite' % str(val)[:60], case)
@@ -765,12 +840,10 @@ class GhuryeOlkin(C20Cas):
                         cgs = sp.nsimplify(sp.N(sp.sympify(A[0, 0]).subs(pt0) / b00, 30), rational=True, tolerance=1e-12)
                         if not (cgs.is_Rational and cgs > 0):
                             continue
-                        pk = packed(A, [[cgs * Bm[i][j] for j in range(d)] for i in range(d)], 'A')
-                        dd = decide_identity(pk[0], pk[1], dict(dom, **pk[2]), seed=seed, budget_s=15.0)
-                        if dd['verdict'] == 'discharged':
+                        if all(sp.expand(sp.sympify(A[i, j]) - cgs * Bm[i][j]) == 0 for i in range(d) for j in range(d)):
                             found = (key, cgs)
                             break
-                    nm = 'slogdet argument %s is a positive multiple of M or Psi of the formula [%s]' % (sym, tag)
+                    nm = 'slogdet argument %s = c * (M or Psi) [%s]' % (sym, tag)
                     if found is None:
                         linked = False
                         yield predecided(nm, 'undecided', 'matrix of shape %s not recognised' % (A.shape,), case)
@@ -786,7 +859,7 @@ class GhuryeOlkin(C20Cas):
 class Wcon(C20Cas):
     target = PDF + 'wcon'
     prop = 'C20'
-    label = 'log c(k,nu)'
+    label = 'formula'
     shapes = 'k = 1, 2, 3; nu symbolic'
 
     def _idents(self, tier, seed):
@@ -802,7 +875,7 @@ class Wcon(C20Cas):
 class CovWarton(C20Cas):
     target = COVW + 'cov_warton'
     prop = 'C20'
-    label = 'ridge formula'
+    label = 'ridge'
     shapes = 'd = 1, 2, 3 (symmetric S with positive diagonal); gamma symbolic'
 
     def _idents(self, tier, seed):
@@ -838,7 +911,7 @@ class CovWarton(C20Cas):
                     if pk is None:
                         yield predecided('ridge formula, d=%d' % d, 'undecided', 'result shape %s' % (raw(outcome[1]).shape,), case)
                     else:
-                        yield dict(name='cov_warton(S, gamma) = gamma S + (1 - gamma)(diag S + eps I), d=%d' % d, lhs=pk[0], rhs=pk[1], domain=dict(dom, **pk[2]), case=case)
+                        yield dict(name='cov_warton(S, gamma) = gamma S + (1 - gamma)(diag S + eps I), d=%d' % d, lhs=pk[0], rhs=pk[1], domain=merge(dom, pk[2]), case=case)
                 else:
                     yield predecided('path %d, d=%d' % (k, d), 'undecided', explain_error(outcome[1]), case)
             if n_ok == 0:
@@ -849,7 +922,7 @@ class DetScaling(C20Cas):
     """lemma used to link slogdet arguments: det(c A) = c^d det(A)"""
     target = '@verif/lemmas/c20_lemmas.py::lemma_det_scaling'
     prop = 'C20'
-    label = 'd=1,2,3'
+    label = None
     shapes = 'd = 1, 2, 3 generic matrices'
 
     def _idents(self, tier, seed):
@@ -858,7 +931,7 @@ class DetScaling(C20Cas):
         for d in (1, 2, 3):
             A = real_symbols('m', (d, d))
             lhs, rhs = f(A.tolist(), c, lambda M: sp.Matrix(M).det())
-            yield dict(name='det(c A) = c^d det(A), d=%d' % d, lhs=lhs, rhs=rhs, domain=dict(box(A, -2, 2), **{c: (0.5, 2)}), case=dict(kind='lemma'))
+            yield dict(name='det(c A) = c^d det(A), d=%d' % d, lhs=lhs, rhs=rhs, domain=merge(box(A, -2, 2), {c: (0.5, 2)}), case=dict(kind='lemma'))
 
 
 def contracts():
